@@ -888,6 +888,36 @@ def validFrom : Phase → List Op → Option Phase
   | ph, [] => some ph
   | ph, op :: rest => if opOk op then (phaseNext ph op).bind (validFrom · rest) else none
 
+/-- The protocol the property's quantifier spans ("control settings, pen changes, pause/resume cycles in any
+    order"): operations may also come between pause and resume.  `pausedOps`: paused, and the program has
+    called the library since (what it switched on then is on the terminal now; teardown or destruction
+    has to switch it back, resume has to re-establish the logical modes and pen). -/
+inductive PhaseW | running | paused | pausedOps | stopped
+deriving DecidableEq, Repr
+
+def PhaseW.ofPhase : Phase → PhaseW
+  | .running => .running
+  | .paused => .paused
+  | .stopped => .stopped
+
+/-- The wide protocol: between pause and resume anything but a second pause; after teardown nothing (but
+    destruction); no resume without a pause. `none`: the history leaves the contract. -/
+def phaseNextW : PhaseW → Op → Option PhaseW
+  | .running, .pause => some .paused
+  | .running, .teardown => some .stopped
+  | .running, .resume => none
+  | .running, _ => some .running
+  | .stopped, _ => none
+  | _, .resume => some .running
+  | _, .teardown => some .stopped
+  | _, .pause => none
+  | _, _ => some .pausedOps
+
+/-- Phase after a history that stays inside the wide contract. -/
+def validFromW : PhaseW → List Op → Option PhaseW
+  | ph, [] => some ph
+  | ph, op :: rest => if opOk op then (phaseNextW ph op).bind (validFromW · rest) else none
+
 /-- The pen the program has asked for: `setpen p` names every attribute, `chpen p` those present. -/
 def logicalPen (isSet : Bool) (cur pen : PenMap) : PenMap :=
   fun a => if isSet then some (pen.getD a) else (match pen a with
